@@ -462,3 +462,42 @@ Proof.
 Qed.
 
 End Hash.
+
+(** ** dirFormatBC / DirURL / checkDir: what happens before Validate *)
+Section CheckDirProofs.
+Variable HS : bytes -> bytes.
+
+Definition chosen_format (fmt : option bytes) (flag : bytes) : bytes :=
+  match fmt with Some x => x | None => flag end.
+
+Lemma dir_format_bc_chosen flag fmt :
+  match dir_format_bc flag fmt with Some x => x | None => [] end = chosen_format fmt flag.
+Proof. destruct fmt as [x|]; [reflexivity|]. destruct flag; reflexivity. Qed.
+
+Lemma check_dir_validated parse_ok scheme fmt flag is_dir t v :
+  check_dir_url HS parse_ok scheme fmt flag is_dir t = PValidated v ->
+  parse_ok = true /\
+  ((scheme = s_mem /\ v = TV VOk) \/
+   (scheme = s_file /\ is_dir = true /\
+    exists f, parse_format (chosen_format fmt flag) = Some f /\ v = validate_tree HS f t)).
+Proof.
+  unfold check_dir_url. destruct parse_ok; simpl; [|discriminate]. intros H. split; [reflexivity|].
+  unfold dir_url in H. rewrite dir_format_bc_chosen in H.
+  destruct (bytes_eqb scheme s_mem) eqn:M.
+  { left. apply bytes_eqb_eq in M. inversion H. auto. }
+  destruct (bytes_eqb scheme s_file) eqn:F.
+  { right. apply bytes_eqb_eq in F. split; [exact F|].
+    destruct (parse_format (chosen_format fmt flag)) as [f|]; [|discriminate].
+    destruct is_dir; [|discriminate]. inversion H. split; [reflexivity|]. exists f. auto. }
+  destruct (bytes_eqb scheme s_atlas_scheme); discriminate.
+Qed.
+
+Lemma check_dir_unknown_format x flag is_dir t :
+  parse_format x = None -> check_dir_url HS true s_file (Some x) flag is_dir t = PErrOpen.
+Proof. intros H. unfold check_dir_url, dir_url, dir_format_bc. simpl. rewrite H. reflexivity. Qed.
+
+Lemma check_dir_url_format_wins x flag flag' is_dir t scheme :
+  check_dir_url HS true scheme (Some x) flag is_dir t = check_dir_url HS true scheme (Some x) flag' is_dir t.
+Proof. reflexivity. Qed.
+
+End CheckDirProofs.
